@@ -82,3 +82,11 @@ def classify(case, obs):
     kinds = sorted({o[0].kind for o in obs if isinstance(o[0], Err)})
     tag = "ranked" if rules.is_ranked(case["sys"]) else "self-dependent"
     return tag + ("+" + "+".join(kinds) if kinds else "")
+
+
+def known(case, obs, msg):
+    # F33 (open): an ETERNITY variable with a formula keeps ONE cache slot for all periods: the value
+    # of whichever period is requested first answers every later request
+    if msg.startswith("meaning:") and any(v["unit"] == "eternity" and v["formulas"] for v in case["sys"]["vars"]):
+        return "eternal-variable-period-dependent-formula"
+    return None
